@@ -365,15 +365,23 @@ def run(pid, tier):
             if bad <= 3:
                 rep.mismatches.append("reference tokenization of %r is [%s] but the native tokenizer says %s" % (d, want, nv))
     rep.subclaims[-1]["concrete_validation"] = {"inputs": checked, "mismatches": bad, "function": "reference tokenization vs native MarkdownIterator"}
+    # (c) whole-parser claims on template documents
+    from props import docs
+    hd = docs.h_md_parse(4 if tier == "quick" else 5)
+    resd = e2.run_with_raw(prog, hd)
+    docs.replay_md(rep, NAT, hd, resd)
+    e2.record(rep, hd, resd)
     NAT.close()
     tot_paths = sum(s.get("paths", 0) for s in rep.subclaims)
     rep.coverage.update({
         "explanation": "SMT decision (z3) over bounded symbolic execution of the MIR of extract_code_block_start and of "
                        "MarkdownIterator::next driven to exhaustion (concrete line counts/lengths, symbolic contents); "
-                       "witnesses replayed through the native tokenizer / parser. Titles (regex), YAML config, expectation "
-                       "parsing and exact field contents of test cases are outside.",
+                       "witnesses replayed through the native tokenizer / parser; plus the whole MarkdownParser::parse (LineParser, "
+                       "ExpectationMaker, title regexes via lib/miniregex.py) on every template document of <= 4/5 lines. YAML config "
+                       "contents, CRLF documents and non-ASCII prose are outside.",
         "functions_encoded": ["scrut::parsers::markdown::extract_code_block_start", "scrut::parsers::markdown::MarkdownIterator::new",
-                              "<scrut::parsers::markdown::MarkdownIterator as Iterator>::next", "scrut::parsers::line_parser::is_comment"],
+                              "<scrut::parsers::markdown::MarkdownIterator as Iterator>::next", "scrut::parsers::line_parser::is_comment",
+                              "<MarkdownParser as Parser>::parse", "markdown::extract_title", "markdown::extract_header", "LineParser::*", "ExpectationMaker::parse"],
         "evaluations": tot_paths, "distinct_nontrivial": tot_paths,
         "rule": "one case = one feasible path of the MIR under one input shape; distinct by path condition",
         "samples": [s for sc in rep.subclaims for s in sc.get("samples", [])][:4] or ["see subclaims"],
